@@ -127,6 +127,27 @@ def cmd_determinism(args):
     return 1 if bad else 0
 
 
+def apply_patch_to_copy(patch_path, repo_copy):
+    """Applies the hunks of a patch that concern yalafi/ (the scratch copy
+    holds nothing else: README or test changes are irrelevant here)."""
+    with open(patch_path, newline='') as f:
+        text = f.read()
+    parts = text.split('diff --git ')
+    keep = [parts[0]] if not parts[0].strip() else []
+    kept = ''.join('diff --git ' + p_ for p_ in parts[1:]
+                   if p_.startswith('a/yalafi/'))
+    tmp = tempfile.NamedTemporaryFile('w', suffix='.diff', delete=False,
+                                      newline='')
+    tmp.write(kept)
+    tmp.close()
+    try:
+        p = subprocess.run(['patch', '-p1', '-s', '-d', repo_copy, '-i', tmp.name],
+                           stdout=subprocess.PIPE, stderr=subprocess.STDOUT)
+        return p.returncode == 0, p.stdout.decode('utf-8', 'replace')
+    finally:
+        os.unlink(tmp.name)
+
+
 def make_copy():
     d = tempfile.mkdtemp(prefix='yalafi-mut-')
     os.makedirs(d + '/repo')
@@ -231,15 +252,9 @@ def cmd_seeded(args):
             os.makedirs(tmp + '/repo')
             shutil.copytree('/repo/yalafi', tmp + '/repo/yalafi',
                             ignore=shutil.ignore_patterns('__pycache__'))
-            p = subprocess.run(['git', 'apply', '--directory=' + tmp[1:] + '/repo',
-                                '--unsafe-paths', d + '/patch.diff'], cwd='/',
-                               stdout=subprocess.PIPE, stderr=subprocess.STDOUT)
-            if p.returncode != 0:
-                p = subprocess.run(['patch', '-p1', '-d', tmp + '/repo', '-i',
-                                    d + '/patch.diff'],
-                                   stdout=subprocess.PIPE, stderr=subprocess.STDOUT)
-            if p.returncode != 0:
-                print('%s: patch does not apply: %s' % (name, p.stdout.decode()[-300:]))
+            okay, msg = apply_patch_to_copy(d + '/patch.diff', tmp + '/repo')
+            if not okay:
+                print('%s: patch does not apply: %s' % (name, msg[-300:]))
                 missed.append(name + ' (patch)')
                 continue
             rc, out = run_check_on(pid, tmp + '/repo', tmp + '/evidence',
@@ -269,11 +284,9 @@ def cmd_benign(args):
             os.makedirs(tmp + '/repo')
             shutil.copytree('/repo/yalafi', tmp + '/repo/yalafi',
                             ignore=shutil.ignore_patterns('__pycache__'))
-            p = subprocess.run(['patch', '-p1', '-s', '-d', tmp + '/repo', '-i',
-                                d + '/patch.diff'],
-                               stdout=subprocess.PIPE, stderr=subprocess.STDOUT)
-            if p.returncode != 0:
-                print('%s: patch does not apply: %s' % (name, p.stdout.decode()[-300:]))
+            okay, msg = apply_patch_to_copy(d + '/patch.diff', tmp + '/repo')
+            if not okay:
+                print('%s: patch does not apply: %s' % (name, msg[-300:]))
                 alarms.append(name + ' (patch)')
                 continue
             for pid in PIDS:
